@@ -34,6 +34,12 @@ def main():
     patch = os.path.join(d, "patch.diff")
     demo = os.path.join(d, "demo.py")
     out = {"property": pid, "dir": d, "tier": tier}
+    prev = os.path.join(d, "result.json")
+    if not confirm and os.path.exists(prev):
+        old = json.load(open(prev))
+        for k in ("confirmed", "demo_without", "demo_with", "tests_with", "apply", "demo_with_tail"):
+            if k in old:
+                out[k] = old[k]
     if confirm:
         wt = "/tmp/seedwt_%d" % os.getpid()
         rc, o = sh("git -C /repo worktree add --detach %s HEAD" % wt)
